@@ -73,7 +73,7 @@ def _orders():
     return [tuple(o) for o in sv.build_orders(3)] + [(1, 1, 0, 0), (0, 2, 1, 1)]
 
 
-def states(tier, seed):
+def _states_base(tier, seed):
     out = []
     for ki in range(len(_KEYS)):
         for pid, node in itertools.product([21, -3, 2] if tier == "quick" else [22, 21, -3, 2, 6, -6], [1, 4] if tier == "quick" else [0, 1, 4, 5]):
@@ -138,6 +138,19 @@ def _synthetic(key, pid, node, Q2s, xs=None):
         res.append(ESFResult(0.1, q2, None, {tuple(key): (v, e)}))
     out["F2_total"] = res
     return out
+
+
+def states(tier, seed):
+    """quick = the full base lattice; thorough = base lattice + the deep extension."""
+    base = _states_base("thorough", seed)
+    if tier == "quick":
+        return base
+    seen = {digest(s) for s in base}
+    return base + [s for s in _states_deep(seed) if digest(s) not in seen]
+
+
+def _states_deep(seed):
+    return []
 
 
 def execute(st):
